@@ -10,7 +10,7 @@ func init() {
 }
 
 func init() {
-	props["C20"] = []Stream{{"dupsort", genDup}}
+	props["C20"] = []Stream{{"c20-txn", genTxnFlavor("c20")}, {"dupsort", genDup}}
 }
 
 func init() {
@@ -18,7 +18,7 @@ func init() {
 }
 
 func init() {
-	props["C12"] = []Stream{{"cleaner", genCleaner}, {"loop-restart", genLoopRestart}}
+	props["C12"] = []Stream{{"cleaner", genCleaner}, {"cleaner-foreign", genCleanerForeign}, {"loop-restart", genLoopRestart}}
 }
 
 func init() {
@@ -33,7 +33,7 @@ func init() {
 }
 
 func init() {
-	props["C15"] = []Stream{{"name-build", genNameBuild}, {"name-order", genNameOrder}, {"name-parse", genNameParse}, {"name-sanitize", genSanitize}}
+	props["C15"] = []Stream{{"name-build", genNameBuild}, {"name-order", genNameOrder}, {"name-parse", genNameParse}, {"name-sanitize", genSanitize}, {"cleaner-foreign", genCleanerForeign}}
 }
 
 func init() {
@@ -50,14 +50,14 @@ func init() {
 }
 
 func init() {
-	props["C01"] = []Stream{{"merge", genMerge}, {"merge-order", genMergeOrder}, {"c01-load", genTxnFlavor("c01")}, {"loop", genLoop}}
+	props["C01"] = []Stream{{"merge", genMerge}, {"merge-order", genMergeOrder}, {"c01-load", genTxnFlavor("c01")}, {"c11-oracle", genTxnFlavor("c11")}, {"loop", genLoop}}
 	props["C03"] = []Stream{{"loop", genLoop}, {"c11-oracle", genTxnFlavor("c11")}}
 	props["C09"] = []Stream{{"loop", genLoop}, {"loop-restart", genLoopRestart}}
 	props["C05"] = []Stream{{"loop-restart", genLoopRestart}, {"cleaner-commit", genCleanerCommit}, {"cleaner", genCleaner}}
 }
 
 func init() {
-	props["C17"] = []Stream{{"conc", genConc}}
+	props["C17"] = []Stream{{"conc", genConc}, {"cleaner-commit", genCleanerCommit}}
 }
 
 func init() {
